@@ -68,6 +68,27 @@ type Scenario struct {
 	// Follow: after a successful call, the same request is made once more on the same client and answered by a device
 	// with a different memory image; the first response is re-encoded before and after (Outcome.RespAtReturn / RespAfterFollow)
 	Follow bool `json:"follow,omitempty"`
+	// ConnectFails (network clients): Connect is called and fails - the dial function returns an error together with a nil
+	// connection ("nil") or with a nil *conn wrapped in a non-nil net.Conn ("typed-nil", what `c, err := tls.Dial(..); return c, err`
+	// yields). The client is then unconnected.
+	ConnectFails string `json:"connect_fails,omitempty"`
+	// PriorReq: the earlier call (Prior) sends this request instead of Req
+	PriorReq *spec.Req `json:"prior_req,omitempty"`
+}
+
+// PriorShapes are the request shapes an earlier call can use.
+var PriorShapes = []string{"", "short", "short", "long"}
+
+// PriorShapeReq returns the earlier call's request for a shape: "" same as the judged request (nil) | "short" (FC17, the shortest
+// frame) | "long" (FC16 with 100 registers).
+func PriorShapeReq(shape string) *spec.Req {
+	switch shape {
+	case "short":
+		return &spec.Req{FC: 17, Unit: 5, Tx: 0x0501}
+	case "long":
+		return &spec.Req{FC: 16, Unit: 5, Tx: 0x0502, Addr: 7, Qty: 100, ByteCount: 200, Payload: harness.Bytes(5, 200)}
+	}
+	return nil
 }
 
 // HookCall is one recorded hook invocation.
@@ -182,6 +203,15 @@ func Run(sc Scenario) Outcome {
 		script.IdleKind, script.IdleWait = "timeout", 0
 		conf := modbus.ClientConfig{ReadTimeout: rt, WriteTimeout: time.Second,
 			DialContextFunc: func(ctx context.Context, address string) (net.Conn, error) { return &xport.ScriptConn{S: script}, nil }}
+		if sc.ConnectFails != "" {
+			conf.DialContextFunc = func(ctx context.Context, address string) (net.Conn, error) {
+				if sc.ConnectFails == "typed-nil" {
+					var none *xport.ScriptConn
+					return none, xport.ErrIO
+				}
+				return nil, xport.ErrIO
+			}
+		}
 		if rec != nil {
 			conf.Hooks = rec
 		}
@@ -205,7 +235,25 @@ func Run(sc Scenario) Outcome {
 		default:
 			c = modbus.NewRTUClientWithConfig(conf)
 		}
-		if !sc.NotConnected {
+		if sc.ConnectFails != "" {
+			var cerr error
+			func() {
+				defer func() {
+					if p := recover(); p != nil {
+						cerr = nil
+						out.Panic = fmt.Sprintf("Connect panicked: %v", p)
+					}
+				}()
+				cerr = c.Connect(context.Background(), "script:1")
+			}()
+			if out.Panic != nil {
+				return out
+			}
+			if cerr == nil {
+				out.Panic = "harness: Connect succeeded although the dial function failed"
+				return out
+			}
+		} else if !sc.NotConnected {
 			if err := c.Connect(context.Background(), "script:1"); err != nil {
 				out.Err = err
 				return out
@@ -213,10 +261,16 @@ func Run(sc Scenario) Outcome {
 		}
 		do = c.Do
 	}
-	if sc.Prior != "" && req != nil && !sc.NotConnected {
+	if sc.Prior != "" && req != nil && !sc.NotConnected && sc.ConnectFails == "" {
 		// the earlier call uses its own script on the same transport object and a background context
 		dn := device.New(77)
-		full := dn.Answer(f, out.ReqBytes)
+		preq, preqBytes := req, out.ReqBytes
+		if sc.PriorReq != nil {
+			if q, err := cat.NewRequest(f, *sc.PriorReq); err == nil {
+				preq, preqBytes = q, q.Bytes()
+			}
+		}
+		full := dn.Answer(f, preqBytes)
 		var pev []xport.Event
 		switch sc.Prior {
 		case "success":
@@ -235,7 +289,7 @@ func Run(sc Scenario) Outcome {
 		pch := make(chan struct{})
 		go func() {
 			defer func() { _ = recover(); close(pch) }()
-			_, _ = do(context.Background(), req)
+			_, _ = do(context.Background(), preq)
 		}()
 		select {
 		case <-pch:
